@@ -18,6 +18,7 @@ import (
 	"path/filepath"
 	"reflect"
 	"strings"
+	"time"
 	"unsafe"
 
 	"github.com/ontio/ontology-crypto/keypair"
@@ -319,6 +320,19 @@ func ComposeFrom(dst, base string, pick map[string]string, file []byte) error {
 	return os.WriteFile(filepath.Join(dst, MerkleFile), file, 0o755)
 }
 
+// copyLive copies a data directory whose LevelDB handles are still open (the "dead" process is this one): a background
+// compaction may delete a table file between listing and reading it, so the copy is retried until it goes through.
+func copyLive(src, dst string) (err error) {
+	for i := 0; i < 20; i++ {
+		os.RemoveAll(dst)
+		if err = CopyDir(src, dst); err == nil {
+			return nil
+		}
+		time.Sleep(25 * time.Millisecond)
+	}
+	return err
+}
+
 func unexportedField(v reflect.Value, name string) (reflect.Value, error) {
 	for v.Kind() == reflect.Interface || v.Kind() == reflect.Ptr {
 		if v.IsNil() {
@@ -391,7 +405,7 @@ func DieInCommit(dir, image string, book *account.Account, shc uint32, blk *type
 		}()
 		return k.Ledger.SubmitBlock(blk, nil, res)
 	}()
-	if err := CopyDir(dir, image); err != nil {
+	if err := copyLive(dir, image); err != nil {
 		return false, err
 	}
 	return serr != nil, nil
@@ -424,7 +438,7 @@ func DieInRecovery(dir, image string, book *account.Account, shc uint32, which s
 		}()
 		return ls.InitLedgerStoreWithGenesisBlock(gb, bookkeepers)
 	}()
-	if err := CopyDir(dir, image); err != nil {
+	if err := copyLive(dir, image); err != nil {
 		return false, err
 	}
 	return ierr != nil, nil
